@@ -68,6 +68,46 @@ def entry_points(o, d, doc=OPTION_DOC):
     return res
 
 
+def crlf_points(o, d, doc=OPTION_DOC):
+    """A file with CRLF line ends through every entry point that reads a file: the bytes written (read back in binary) are those
+    of the text API on the same characters -- the line-end convention of the input reaches no output route differently."""
+    from flowmark.cli import main
+    from flowmark.reformat_api import reformat_file, reformat_files, reformat_text
+    raw = doc.replace("\n", "\r\n").encode("utf-8")
+    want = reformat_text(doc, **o).encode("utf-8")
+    kw = {k: o[k] for k in ("width", "plaintext", "semantic", "cleanups", "smartquotes", "ellipses", "list_spacing")}
+    res = {}
+
+    def fresh(name):
+        pth = os.path.join(d, name)
+        open(pth, "wb").write(raw)
+        return pth
+    src = fresh("crlf_in.md")
+    with captured() as (out, _):
+        reformat_file(src, None, **kw)
+    res["file_api:stdout"] = out.getvalue().encode("utf-8")
+    outp = os.path.join(d, "crlf_out.md")
+    reformat_file(src, outp, **kw)
+    res["file_api:-o"] = open(outp, "rb").read()
+    ip = fresh("crlf_ip.md")
+    reformat_file(ip, None, inplace=True, nobackup=True, **kw)
+    res["file_api:inplace"] = open(ip, "rb").read()
+    ip2 = fresh("crlf_ip2.md")
+    reformat_files([ip2], inplace=True, nobackup=True, **kw)
+    res["files_api:inplace"] = open(ip2, "rb").read()
+    fl = cli_flags(o)
+    with in_dir(d):
+        with captured() as (out, _):
+            rc = main(fl + [src])
+        res["cli:stdout"] = out.getvalue().encode("utf-8") if rc == 0 else b"rc=%d" % rc
+        ci = fresh("crlf_cli_ip.md")
+        with captured() as (out, _):
+            rc = main(fl + ["-i", "--nobackup", ci])
+        res["cli:inplace"] = open(ci, "rb").read() if rc == 0 else b"rc=%d" % rc
+        ca = fresh("crlf_cli_auto.md")
+    return want, res
+
+
 def auto_points(d, doc=OPTION_DOC):
     """--auto == --inplace --nobackup --semantic --cleanups --smartquotes --ellipses"""
     from flowmark.cli import main
@@ -164,6 +204,14 @@ def bounded(tier, seed):
                         violations.append({"clause": "entry_points_agree", "entry": k, "bom": True,
                                            "input": {kk: (vv.value if hasattr(vv, "value") else vv) for kk, vv in o.items()},
                                            "got": v[:300], "want": want[:300]})
+        for o in pts[:4]:
+            want, r = crlf_points(o, d)
+            evals += len(r)
+            for k, v in r.items():
+                if v != want:
+                    violations.append({"clause": "entry_points_agree", "entry": k, "crlf_input": True,
+                                       "input": {kk: (vv.value if hasattr(vv, "value") else vv) for kk, vv in o.items()},
+                                       "got": v.decode("utf-8", "replace")[:300], "want": want.decode("utf-8")[:300]})
         for w, r1, r2, a, b, orig in auto_points(d):
             evals += 1
             if r1 != 0 or r2 != 0 or a != b or orig:
@@ -176,7 +224,7 @@ def bounded(tier, seed):
         shutil.rmtree(d, ignore_errors=True)
     return {"evaluations": evals, "distinct_nontrivial": len(distinct), "violations": violations, "samples": samples,
             "rule": "option points {width 0/40/88} x 2^5 flags x 3 list-spacings (quick: width-40/preserve slice + 24 seeded "
-                    "others; thorough: all 288) x 11 entry points on one option-sensitive document; distinct = distinct "
+                    "others; thorough: all 288) x 11 entry points on one option-sensitive document (+ the same document with a byte-order mark, and with CRLF line ends through the 6 file-reading entry points, compared in binary); distinct = distinct "
                     "text-API outputs",
             "exhaustive": tier == "thorough", "bound": "1 document, 288 option points"}
 
